@@ -111,6 +111,11 @@ def invariant(ctx, route, fn, args, which=None, tol=1e-12, lists=True, clause="t
             if attitude and r.size % 4 == 0 and r.size:
                 rr, bb_ = r.reshape(-1, 4), b.reshape(-1, 4)
                 d = np.minimum(np.abs(rr - bb_).max(axis=1), np.abs(rr + bb_).max(axis=1))
+                same_nan = np.isnan(rr).any(axis=1) & np.all(np.isnan(rr) == np.isnan(bb_), axis=1)      # a row that is NaN in the same places in both forms: equal behaviour
+                with np.errstate(all="ignore"):
+                    rest = np.nan_to_num(np.fmin(np.nanmax(np.abs(np.where(np.isnan(rr), 0.0, rr) - np.where(np.isnan(bb_), 0.0, bb_)), axis=1),
+                                                 np.nanmax(np.abs(np.where(np.isnan(rr), 0.0, rr) + np.where(np.isnan(bb_), 0.0, bb_)), axis=1)))
+                d = np.where(same_nan, rest, d)
             elif attitude and r.size == 3:
                 d = np.minimum(d, np.abs((r - b + np.pi) % (2 * np.pi) - np.pi))
             resid = float(np.nanmax(d)) / scale if d.size else 0.0
